@@ -18,7 +18,7 @@ import (
 
 const c10 = "C10"
 const c10rule = "generated store histories (0..8 certificates, first instance placed so that the crashed put is often the one that writes a power-table checkpoint), then one operation {CreateStore, OpenOrCreateStore (first time), Put of a valid successor, DeleteAll}: the operation is run once on a write-counting datastore to learn its n datastore writes, " +
-	"then for EVERY k in [0,n] it is re-run from the same pre-state with the datastore dying at write k; the surviving key/value map is reopened with OpenStore and with OpenOrCreateStore and every observable (Latest, Get, GetPowerTable, GetRange) must equal the model state before or after the operation, an interrupted wipe must be completed by reopen (no /certstore key left), and repeating the operation must succeed. DeleteAll runs with a generated permutation of query results so every deletion order is reachable. " +
+	"then for EVERY k in [0,n] it is re-run from the same pre-state with the datastore dying at write k; the surviving key/value map is reopened with OpenStore, with OpenOrCreateStore and with CreateStore (refused while a store exists; otherwise a fresh store that keeps what is put into it across the next restart) and every observable (Latest, Get, GetPowerTable, GetRange) must equal the model state before or after the operation, an interrupted wipe must be completed by reopen (no /certstore key left), and repeating the operation must succeed. DeleteAll runs with a generated permutation of query results so every deletion order is reachable. " +
 	"Non-trivial = crash point strictly inside an operation (0<k<n); distinct by digest of (history, operation, k, permutation)"
 
 type crashOp struct {
@@ -59,7 +59,44 @@ func matches(t *rapid.T, variant string, snap map[string][]byte, cand *Model, fi
 	ds := vds.FromSnapshot(snap)
 	var st *certstore.Store
 	var err error
-	if variant == "OpenStore" {
+	if variant == "CreateStore" {
+		// a restart that goes straight to CreateStore: refused while a store exists (and the
+		// store is then unchanged); otherwise a fresh store with the new parameters, which
+		// keeps what is put into it across the next restart
+		if cand.Exists {
+			if _, cerr := certstore.CreateStore(ctx, ds, cand.First, cand.Tables[0]); cerr == nil {
+				return false, "CreateStore succeeded although the store exists"
+			}
+			st, err = certstore.OpenStore(ctx, ds)
+		} else {
+			nf := first + 7
+			st, err = certstore.CreateStore(ctx, ds, nf, initial)
+			if err != nil {
+				return false, fmt.Sprintf("CreateStore on a datastore without a store failed: %v", err)
+			}
+			fresh := &Model{Exists: true, First: nf, Tables: []gpbft.PowerEntries{initial}}
+			rec := &recorder{}
+			safely(func() { CompareUpToLatest(rec, c10, variant, st, fresh) })
+			if rec.failed != "" {
+				return false, "fresh store: " + rec.failed
+			}
+			c := plainCert("vnet", nf, initial, initial, fresh.Head())
+			if perr := st.Put(ctx, c); perr != nil {
+				return false, fmt.Sprintf("put into the fresh store failed: %v", perr)
+			}
+			fresh.Certs = append(fresh.Certs, c)
+			fresh.Tables = append(fresh.Tables, initial)
+			st2, oerr := certstore.OpenStore(ctx, ds)
+			if oerr != nil {
+				return false, fmt.Sprintf("the store created after the crash is gone on the next restart: %v", oerr)
+			}
+			safely(func() { CompareUpToLatest(rec, c10, variant+"+restart", st2, fresh) })
+			if rec.failed != "" {
+				return false, "fresh store after restart: " + rec.failed
+			}
+			return true, ""
+		}
+	} else if variant == "OpenStore" {
 		st, err = certstore.OpenStore(ctx, ds)
 		if !cand.Exists {
 			if errors.Is(err, certstore.ErrNotInitialized) {
@@ -249,7 +286,7 @@ func TestC10CrashPoints(t *testing.T) {
 			surv := d.Snapshot()
 			inside := k > 0 && k < n
 			label := fmt.Sprintf("%s crash at write %d/%d", opKind, k, n)
-			for _, variant := range []string{"OpenStore", "OpenOrCreateStore"} {
+			for _, variant := range []string{"OpenStore", "OpenOrCreateStore", "CreateStore"} {
 				var okBefore, okAfter bool
 				var whyB, whyA string
 				safely(func() { okBefore, whyB = matches(t, variant, surv, m0, first, initial) })
